@@ -70,6 +70,12 @@ Step ==
      THEN /\ UNCHANGED <<ok, cfg, st>>
           /\ (e.got # e.ab /\ e.got # e.ba) => PrintT(<<"REJECT", ToJson([trace |-> e.trace, line |-> l, why |-> "an Update overlapping another call left a state neither serial order produces",
                                                                            kind |-> e.kind, logged |-> e])>>)
+     ELSE IF e.ev = "WindowHeld"
+     THEN \* a sample window is a value: one that was kept says the same after any number of samples added to other windows
+          /\ UNCHANGED <<ok, cfg, st>>
+          /\ e.before # e.after =>
+                PrintT(<<"REJECT", ToJson([trace |-> e.trace, line |-> l, why |-> "a sample window that was kept changed although nothing was added to it",
+                                           kind |-> "window", logged |-> e, expected |-> e.before])>>)
      ELSE IF ~ok THEN UNCHANGED <<ok, cfg, st>>
      ELSE IF e.ev = "ResetOp" THEN st' = [lo |-> None, hi |-> None] /\ UNCHANGED <<ok, cfg>>
      ELSE IF e.ev = "Window"
